@@ -107,6 +107,18 @@ def replay_hist{sfx}{n}_{op0}_{t0}({", ".join(f"o{i}, t{i}" for i in range(1, n)
     return replay_history({ops})
 ''')
     out.append('''
+def reopen_all(place: int, n_pages: int, how: int) -> bool:
+    """
+    pre: 0 <= place < len(DB_PLACES) and 1 <= n_pages <= len(REOPEN_PAGES) and 0 <= how < 3
+    post: _
+    """
+    return reopen_step(place, n_pages, how)
+
+
+def replay_reopen_all(place, n_pages, how):
+    return replay_reopen(place, n_pages, how)
+
+
 def _up(c):
     # explicit case mapping of the title alphabet (str.upper()/lower() on a symbolic character are slow in CrossHair)
     return "A" if c == "a" else ("B" if c == "b" else c)
@@ -141,12 +153,15 @@ def run(rep: C.Report) -> None:
         "while tracing, so after the solver has chosen a history its operations run untraced, on the real memo; all lru_cache memos found on the class are cleared between histories."
     )
     rep.assumptions += ["recorder stub answers 'no rows'; SQL text is not interpreted (only the bound values are compared)", "redirect resolution is one hop within the same namespace"]
-    rep.outside += ["commit / reopen identity through a new context (SQLite file semantics)", "titles with ':' inside, non-ASCII titles", "histories longer than the bound"]
+    rep.outside += ["a database file placed directly in the temp directory (deleted on close by design)", "crash consistency of the SQLite file", "titles with ':' inside, non-ASCII titles", "histories longer than the bound"]
     rep.trusted += ["CrossHair 0.0.110", "z3", "sqlite3 (real, for the history conditions)"]
     src = open(H).read() + "\n" + gen(quick)
     xh.check_harness(rep, H, {
             "^sp_": dict(name="Ob1 add_page key is among the titles get_page queries, for every spelling variant; later-letter case is significant", functions=["core.py:Wtp.add_page", "core.py:Wtp.get_page"], bounds=f"titles of 1..{3 if quick else 4} symbolic characters over {{a,A,_,space,b}}; namespaces Template, Module, Project (local name Wiktionary), Main"),
         }, timeout=180 if quick else 600, src=src, batch=4, twins=False, select="^sp_")
+    xh.check_harness(rep, H, {
+            "^reopen_": dict(name="Ob4 committed content is identical when read through a new context on the same file (close_db_conn / commit, then reopen)", functions=["core.py:Wtp.close_db_conn", "core.py:Wtp.create_db", "core.py:Wtp.add_page", "core.py:Wtp.get_all_pages"], bounds="database file in 5 places relative to tempfile.gettempdir() (sub-directory, deeper, outside, sibling directory whose name extends the temp directory's, temp-file-like name in a sub-directory) x 1..3 pages (text, template, redirect) x {close then reopen, commit and reopen while open, close-reopen twice}; a file directly in the temp directory is the throw-away database and is deleted on close by design (not claimed); solver-driven case split, real SQLite untraced"),
+        }, timeout=120 if quick else 300, src=src, batch=1, twins=False, select="^reopen_")
     # the history conditions only case-split in the solver and run the operations untraced (see harness): ~25 ms per history
     xh.check_harness(rep, H, {
             "^hist": dict(name="Ob2/Ob3 read-after-write and one-hop redirect on the real store", functions=["core.py:Wtp.add_page", "core.py:Wtp.get_page", "core.py:Wtp.page_exists", "core.py:Wtp.get_page_resolve_redirect"], bounds="all histories of 3 operations over 11 operation kinds x 2 titles" if quick else "all histories of 4 operations over 11 operation kinds x 2 titles, and of 5 operations over 8 kinds (add v1/v2, redirect full/bare, get, exists, resolve, main-namespace lookup) x 2 titles"),
